@@ -92,6 +92,8 @@ def run(ctx):
     ctx.rule("R14.1i", "proto -> raw: every field of every converter's output derives from the corresponding message field")
     ctx.rule("R14.2", "Units: every raw unit is exported to a schema unit or reported as an error (never a panic); every schema unit is importable")
     ctx.rule("R14.3", "exported cells are listed in dependency order: the cell list derives from the orderer's result")
+    from rules import C17 as c17
+    c17.run(ctx.sub("R14.3o", "the raw cell orderer the exporter relies on satisfies the orderer rules of C17"), only=lambda f: f.id.startswith("layout21raw::data::"), floors=False)
     ctx.rule("R14.4", "exporting cannot panic on any raw library")
     for rid, table, side in (("R14.1e", EXPORT, "export"), ("R14.1i", IMPORT, "import")):
         n = 0
